@@ -288,12 +288,16 @@ def open_endings(rng):
         body = T.string_body(rng, q, hostile=False)
         w = rng.choice(['', ' '])
         tail = rng.choice(['', q, q + ' '])
-        t = rng.choice(['url(', 'URL(']) + w + q + body + tail
+        t = rng.choice(URL_NAMES) + w + q + body + tail
         closed = t + ')' if tail else t + q + ')'
-        return t, 'URI', {decode(closed)}
+        return t, 'URI', {decode(closed), 'url(' + decode(closed).split('(', 1)[1]}
     body = ''.join(rng.choice('abc./:_-') for _ in range(rng.randint(0, 8)))
-    t = 'url(' + rng.choice(['', ' ']) + body
-    return t, 'URI', {decode(t + ')')}
+    t = rng.choice(URL_NAMES) + rng.choice(['', ' ']) + body
+    return t, 'URI', {decode(t + ')'), 'url(' + decode(t + ')').split('(', 1)[1]}
+
+
+# the name of url( in the spellings an identifier may have: letter case, simple and hex escapes
+URL_NAMES = ['url(', 'url(', 'URL(', 'Url(', 'u\\rl(', '\\75rl(', 'u\\72 l(', 'ur\\6c(', '\\55 RL(', 'u\\000072l(']
 
 
 def stream_open(ctx, tk, count):
